@@ -113,6 +113,15 @@ CHECKS = {
         note=TRUST + "Language equality under each option is not decided; the indenter's content preservation is assumed.",
         technique="static analysis: constant propagation with string templates (loops over constant arrays unrolled), interprocedural value-flow provenance",
     ),
+    "C04": dict(
+        category="other",
+        text="Decided: the (?i) flag is emitted exactly when requested (all abstract paths of the printer); lower-casing happens only under the setting, only when "
+             "the char count is preserved, and - since std's and regex-syntax's case tables differ on 55 scalars in this toolchain (read from both tables) - "
+             "only when an engine round-trip validates it. That the language is exactly the fold-closure of the test cases is not decided.",
+        design_ref="DESIGN.md §4 C04",
+        note=TRUST + "std's lower-casing table is parsed from the nightly rust-src (stable ships no source); regex-syntax's folding table is the evaluated constant of the locked version.",
+        technique="static analysis: constant propagation, control dependence, exact comparison of two case-mapping tables",
+    ),
 }
 
 NOT_APPLICABLE = {
